@@ -798,6 +798,15 @@ static ares_status_t process_answer(ares_channel_t      *channel,
     goto cleanup;
   }
 
+  /* Only a response can answer a query.  A message with the QR bit clear is a
+   * query: one that is reflected back at us with our own id and question (an
+   * echo service, a routing loop, a forger who cannot build a reply) must not
+   * be delivered -- or cached -- as if it were the (empty) answer. */
+  if (!(ares_dns_record_get_flags(rdnsrec) & ARES_FLAG_QR)) {
+    status = ARES_SUCCESS;
+    goto cleanup;
+  }
+
   /* Find the query corresponding to this packet. The queries are
    * hashed/bucketed by query id, so this lookup should be quick.
    */
